@@ -328,6 +328,31 @@ pub fn families() -> Vec<Family> {
             },
         },
         Family {
+            name: "entity-dag-in-attribute",
+            sizes: steps(2, 40, 2),
+            make: |n| {
+                // empty leaves: the denoted value stays empty, only the well-formedness checks walk the DAG
+                let mut s = String::from("<!DOCTYPE r [<!ENTITY a0 ''><!ENTITY b0 ''>");
+                for i in 1..=n {
+                    s.push_str(&format!("<!ENTITY a{0} '&a{1};&b{1};'><!ENTITY b{0} '&b{1};&a{1};'>", i, i - 1));
+                }
+                s.push_str(&format!("]><r x='&a{0};' y='&b{0};'>&a{0};</r>", n));
+                s
+            },
+        },
+        Family {
+            name: "entity-doubling-in-attribute",
+            sizes: steps(2, 40, 2),
+            make: |n| {
+                let mut s = String::from("<!DOCTYPE r [<!ENTITY e0 ''>");
+                for i in 1..=n {
+                    s.push_str(&format!("<!ENTITY e{} '&e{};&e{};'>", i, i - 1, i - 1));
+                }
+                s.push_str(&format!("]><r a='&e{};'/>", n));
+                s
+            },
+        },
+        Family {
             name: "entity-cycle",
             sizes: vec![1, 2, 3, 4, 8],
             make: |n| {
